@@ -265,7 +265,7 @@ def check_1090(col, binpath, rng, tag, seg_kind, delay_kind, malformed, scratch,
         extra = ["--panic-display"]
     elif n_tag % 4 == 3 and malformed == "none":
         extra = ["--panic-decode"]
-    s = session.Dump1090Session(binpath, plan, extra)
+    s = session.Dump1090Session(binpath, plan, extra, env_extra={"RUST_LOG": ["debug", "trace", "off", "info"][n_tag % 4]})
     cls = f"seg={seg_kind}|delay={delay_kind}|malformed={malformed}" + ("|then_close" if closing else "") + ("|" + extra[0].lstrip("-") if extra else "")
     inp = {"client": "1090", "options": extra, "segmentation": seg_kind, "delay": delay_kind, "malformed": malformed, "lines": [d.decode("latin1") for _, d, *_ in lines], "tag": tag}
     try:
@@ -410,6 +410,9 @@ def check_radar(col, binpath, rng, tag, seg_kind, delay_kind, malformed, disconn
     slow = seg_kind == "per_byte" and delay_kind == "gt_timeout"
     lines, expect = build_feed(rng, n_lines or (3 if slow else rng.randint(20, 70)), malformed, limit_parsing=limit)
     steps, midline = segment(rng, lines, seg_kind, delay_kind)
+    # how long radar may need to work through this feed (about 100 lines or 100 KB per second when
+    # nothing else runs): every wait that covers a backlog is this much longer
+    drain = len(lines) / 40.0 + sum(len(d) for _, d, *_ in lines) / 40000.0
     opts = ["--filter-time", "100000"]
     if limit:
         opts.append("--limit-parsing")
@@ -432,10 +435,10 @@ def check_radar(col, binpath, rng, tag, seg_kind, delay_kind, malformed, disconn
             # keeps about it belongs to the connection that ended)
             partial = rng.choice([b"*8D4840D6202C", b"*8D4840D6202C", b"x" * 70000, b"*" + b"8D" * 50000, b"\n" + b"y" * 66000, b"z" * 1024])
             partial_desc = f"{len(partial)} bytes starting {partial[:16]!r}, no line end, then the connection drops"
-            plan += [("wait_for", "first_checked"), ("send", partial), ("sleep", 1.5 if len(partial) > 1000 else 0.3), ("close",), ("sleep", rng.choice([0.1, 0.5])), ("accept", 25.0)]
+            plan += [("wait_for", "first_checked"), ("send", partial), ("sleep", 1.5 if len(partial) > 1000 else 0.3), ("close",), ("sleep", rng.choice([0.1, 0.5])), ("accept", 25.0 + drain)]
         elif disconnect == "retry_reset":
             # the server dies abortively (RST instead of FIN) and comes back
-            plan += [("wait_for", "first_checked"), ("reset",), ("sleep", rng.choice([0.1, 0.5])), ("accept", 25.0)]
+            plan += [("wait_for", "first_checked"), ("reset",), ("sleep", rng.choice([0.1, 0.5])), ("accept", 25.0 + drain)]
         elif disconnect == "retry_backlog":
             # the server stays up but does not accept for longer than the client's 10 s connect timeout
             plan += [("wait_for", "first_checked"), ("close",), ("saturate", 13.0, 40.0)]
@@ -446,7 +449,7 @@ def check_radar(col, binpath, rng, tag, seg_kind, delay_kind, malformed, disconn
             for k in range(rng.randint(1, 40)):
                 a = rng.choice(addrs)
                 last_words.append(("good", enc.line(enc.long_frame(17, rng.randrange(8), a, enc.me_unique(25, 800000 + k))), a, None))
-            plan += [("wait_for", "first_checked"), ("send", b"".join(d for _, d, *_ in last_words)), ("close",), ("sleep", rng.choice([0.1, 0.5, 2.0])), ("accept", 25.0)]
+            plan += [("wait_for", "first_checked"), ("send", b"".join(d for _, d, *_ in last_words)), ("close",), ("sleep", rng.choice([0.1, 0.5, 2.0])), ("accept", 25.0 + drain)]
             lines2 = last_words + lines2
         plan += [("send", d) for _, d, *_ in lines2[len(last_words):]] + [("mark", "feed2_done"), ("sleep", 60)]
     elif disconnect == "midline":
@@ -459,7 +462,11 @@ def check_radar(col, binpath, rng, tag, seg_kind, delay_kind, malformed, disconn
     inp = {"client": "radar", "options": opts, "segmentation": seg_kind, "delay": delay_kind, "malformed": malformed, "disconnect": disconnect, "lines": [d.decode("latin1") for _, d, *_ in lines], "tag": tag}
     if partial_desc:
         inp["unfinished_line_before_the_drop"] = partial_desc
-    sess = session.RadarSession(binpath, plan, opts=opts, rows=40, cols=130, scratch=scratch)
+    # every other scenario with the log switched on (the arguments of the log lines are code, too)
+    n_tag = int(tag.rsplit("#", 1)[-1]) if tag.rsplit("#", 1)[-1].isdigit() else 0
+    env_extra = {"RUST_LOG": ["debug", "trace"][n_tag % 4 // 2]} if n_tag % 2 == 0 else {"RUST_LOG": "off"}
+    inp["RUST_LOG"] = env_extra["RUST_LOG"]
+    sess = session.RadarSession(binpath, plan, opts=opts, rows=40, cols=130, scratch=scratch, env_extra=env_extra)
     try:
         sess.wait_connected()
         # wait for the first mark
@@ -493,7 +500,7 @@ def check_radar(col, binpath, rng, tag, seg_kind, delay_kind, malformed, disconn
             # (radar works through about 100 KB per second: a run of over-long lines keeps the table
             # unchanged for a while)
             size = sum(len(d) for _, d, *_ in lines)
-            rows = parse_when_stable(sess, cap=60.0 + size / 40000.0, quiet_cap=6.0 + size / 40000.0)
+            rows = parse_when_stable(sess, cap=60.0 + drain, quiet_cap=6.0 + size / 40000.0)
             sess.srv.release("first_checked")
             if rows is None:
                 if not sess.p.alive():
@@ -509,7 +516,7 @@ def check_radar(col, binpath, rng, tag, seg_kind, delay_kind, malformed, disconn
         if any(e[1] == "closed" for e in sess.srv.log) and not sess.p.alive() and disconnect != "retry":
             pass
         if disconnect in ("retry", "retry_midline", "retry_backlog", "retry_reset"):
-            end = time.monotonic() + 90
+            end = time.monotonic() + 90 + drain
             while time.monotonic() < end and not any(e[1] == "mark" and e[2] == "feed2_done" for e in sess.srv.log):
                 sess.p.pump(0.05)
                 if not sess.p.alive() or sess.srv.error:
@@ -525,7 +532,7 @@ def check_radar(col, binpath, rng, tag, seg_kind, delay_kind, malformed, disconn
             for _, d, a, _ in lines2:
                 expect[a]["msgs"] += 1
             size = sum(len(d) for _, d, *_ in lines) if backlog else 0
-            rows = parse_when_stable(sess, sentinel_msgs=expect[SENTINEL]["msgs"], cap=60.0 + size / 40000.0, quiet_cap=6.0 + size / 40000.0)
+            rows = parse_when_stable(sess, sentinel_msgs=expect[SENTINEL]["msgs"], cap=60.0 + drain, quiet_cap=6.0 + size / 40000.0)
             if rows is None:
                 raise Inconclusive("Airplanes table not found after reconnect")
             compare_rows(col, rows, expect, cls + ("" if disconnect == "retry" else f"|disc={disconnect}"), dict(inp, lines2=[d.decode() for _, d, *_ in lines2]), "after_reconnect_tracked_aircraft_kept")
